@@ -189,3 +189,20 @@ package server
 //@ call MessageToPublish#1 assert [C12] (version == 5 && at(iter, msg.MessageExpiry) != 0 && now - v.At < 4294967296000000000) ==> int(msg.MessageExpiry) == fwdExpiry(at(iter, msg.MessageExpiry), now - v.At) && 1 <= msg.MessageExpiry && msg.MessageExpiry <= at(iter, msg.MessageExpiry)
 //@ call MessageToPublish#1 assert [C12] !(version == 5 && at(iter, msg.MessageExpiry) != 0) ==> msg.MessageExpiry == at(iter, msg.MessageExpiry)
 //@ call MessageToPublish#1 assert [C12] now >= v.At
+
+// ---------------------------------------------------------------------------
+// C03 — replay after a reconnect (client.pollInflights): every in-flight entry of the resumed session is sent again —
+// a PUBLISH with DUP = 1 and its identifier, a PUBREL with its identifier — and its identifier is marked in use in
+// the new connection's limiter before it is written, so that it cannot be handed to another message while it awaits
+// its acknowledgement.
+//@ func (*packetIDLimiter).lock inline
+//@ func (*packetIDLimiter).unlock inline
+//@ func (*client).pollInflights
+//@ props C03
+//@ requires [C03] client != nil && client.opts != nil && client.queueStore != nil && limFixed(client.pl)
+//@ monitor client.pl.cond.L protects client.pl.used, client.pl.freePid, client.pl.exit, elems(client.pl.lockedPid.vals) with invariant limOK(client.pl)
+//@ modifies heap, ghost(client.$nout), ghost(client.$lastOut)
+//@ loop 1 invariant client != nil && client.pl == old(client.pl) && limFixed(client.pl) && limOK(client.pl) && -1 <= $k && $k < len(elems)
+//@ loop 1 invariant forall i int :: 0 <= i && i < len(elems) ==> elems[i] != nil && ((elems[i].MessageWithID.(type *queue.Publish) && elems[i].MessageWithID.(*queue.Publish) != nil && elems[i].MessageWithID.(*queue.Publish).Message != nil) || (elems[i].MessageWithID.(type *queue.Pubrel) && elems[i].MessageWithID.(*queue.Pubrel) != nil))
+//@ call client.write#1 assert [C03] locked(client.pl, id) && packets.(type *packets.Publish) && packets.(*packets.Publish).Dup && packets.(*packets.Publish).PacketID == id
+//@ call client.write#2 assert [C03] locked(client.pl, id) && packets.(type *packets.Pubrel) && packets.(*packets.Pubrel).PacketID == id
